@@ -30,4 +30,31 @@ AfOf(p) == Parse(AfBytes(p)).a
 AfContentBytes(p) == IF ~HasAF(p) THEN 0 ELSE IF AfLen(p) = 0 THEN 1 ELSE 1 + Content(AfOf(p))
 \* payload capacity: 188 - 4 header bytes - non-stuffing adaptation field content
 Capacity(p) == PacketSize - 4 - AfContentBytes(p)
+
+(***************************************************************************)
+(* SetPayload (method form), property C02.  The packet keeps its header    *)
+(* fields and every adaptation-field flag and optional field; the          *)
+(* adaptation field is resized (created if need be, which turns            *)
+(* adaptation_field_control 01 into 11) so that the payload is exactly the *)
+(* first min(Len(d), Capacity) bytes of d; all remaining room is 0xFF      *)
+(* stuffing.  Refused, packet untouched, on an adaptation-field-only       *)
+(* packet.                                                                 *)
+(***************************************************************************)
+\* the adaptation field bytes (length byte included) for a payload of k bytes
+ResizedAf(p, k) ==
+  LET n == 183 - k IN                      \* new adaptation_field_length
+  IF HasAF(p) /\ AfLen(p) >= 1 THEN Ser([AfOf(p) EXCEPT !.len = n])
+  ELSE IF n = 0 THEN <<0>>                 \* only the length byte
+  ELSE Ser(Blank(n))                       \* a fresh field: no flags, all stuffing
+ExpectSetPayload(p, d) ==
+  IF Get("afc", p) = 2 THEN [pkt |-> p, n |-> 0, err |-> TRUE]
+  ELSE LET k == Min(Len(d), Capacity(p)) IN
+       IF ~HasAF(p) /\ k = 184
+       THEN [pkt |-> SubSeq(p, 1, 4) \o SubSeq(d, 1, 184), n |-> 184, err |-> FALSE]
+       ELSE [pkt |-> SubSeq(Set("afc", p, 3), 1, 4) \o ResizedAf(p, k) \o SubSeq(d, 1, k), n |-> k, err |-> FALSE]
+
+\* package-level SetPayload(pkt, pay): overwrite the payload area in place, return the count
+ExpectSetPayloadFn(p, d) ==
+  LET k == Min(Len(d), PacketSize - HeaderLen(p)) IN
+  [pkt |-> SubSeq(p, 1, HeaderLen(p)) \o SubSeq(d, 1, k) \o SubSeq(p, HeaderLen(p) + k + 1, PacketSize), n |-> k]
 =============================================================================
